@@ -166,6 +166,17 @@ fn digest_of<R: std::io::Read + std::io::Seek>(r: &mp4::Mp4Reader<R>) -> Result<
             )
         })?);
     }
+    // parsed structure that no accessor exposes but that is part of the (public) parse result and
+    // does not depend on positions: edit lists, presence of optional containers
+    for (i, tk) in r.moov.traks.iter().enumerate() {
+        let extra = guarded("trak structure", || format!(" edts={:?} trak.meta={} tkhd=({},{},{},{:?})", tk.edts, tk.meta.is_some(), tk.tkhd.track_id, tk.tkhd.layer, tk.tkhd.alternate_group, tk.tkhd.matrix))?;
+        if let Some(t) = tracks.iter_mut().find(|t: &&mut String| t.starts_with(&format!("{} ", tk.tkhd.track_id))) {
+            t.push_str(&extra);
+        } else if let Some(t) = tracks.get_mut(i) {
+            t.push_str(&extra);
+        }
+    }
+    let movie = format!("{} mvex={} udta={} moov.meta={} next_track_id={} rate={:?}", movie, r.moov.mvex.is_some(), r.moov.udta.is_some(), r.moov.meta.is_some(), r.moov.mvhd.next_track_id, r.moov.mvhd.rate);
     let md = r.metadata();
     let meta = guarded("metadata", || format!("{:?} {:?} {:?} {:?}", md.title(), md.year(), md.poster().map(|p| p.to_vec()), md.summary()))?;
     Ok(Digest { movie, tracks, meta })
@@ -304,7 +315,10 @@ pub fn base_movies(ctx: &Ctx) -> Vec<Movie> {
 
 pub fn movie_strategy() -> impl Strategy<Value = Movie> {
     prop_oneof![
-        3 => gen::table_movie(3, 8),
+        3 => (gen::table_movie(3, 8), any::<u16>()).prop_map(|(mut m, x)| {
+            gen::logical_extras(&mut m, x);
+            m
+        }),
         2 => gen::frag_movie(3, 3, 4).prop_map(|mut m| {
             let d = m.tracks[0].trex_dur;
             for t in m.tracks.iter_mut() {
